@@ -503,7 +503,9 @@ func (w *cworld) enterBody(ctx context.Context, what string) int {
 type stubArena struct{ w *cworld }
 
 func (a *stubArena) Realizer(ctx context.Context) indexer.Realizer {
-	a.w.enterBody(ctx, "controller.Index")
+	if a.w.enterBody(ctx, "controller.Index") == 3 {
+		panic("scripted panic inside the critical section")
+	}
 	return stubRealizer{}
 }
 func (a *stubArena) Close(context.Context) error { return nil }
@@ -929,7 +931,7 @@ func (w *cworld) emitRet(c *caller) {
 		w.r.Op(fmt.Sprintf("check %d", c.cid), "skip", true)
 	}
 	out := "ret -"
-	if c.kind == "index" {
+	if c.kind == "index" && c.retClass != "panic" {
 		out = "ret " + c.retClass
 	}
 	w.r.Op(fmt.Sprintf("ret %d", c.cid), out, true)
@@ -1044,7 +1046,10 @@ func (w *cworld) leave(c *caller, rnd *hx.Rand) {
 	if rnd.Chance(3, 10) {
 		r = 1
 	}
-	if c.parent < len(w.parents) && w.parents[c.parent].dead {
+	if w.mode == "index" && rnd.Chance(1, 12) {
+		r = 3 // the critical section panics: the deferred release is the only way out
+		w.r.Count("caller:index:body-panics")
+	} else if c.parent < len(w.parents) && w.parents[c.parent].dead {
 		r = 2
 		w.r.Count("caller:" + w.mode + ":parent-cancelled-in-body")
 	}
